@@ -34,6 +34,8 @@
                            (a concurrent Subscribe replays it AND receives it live)
      MutBatchPersistFirst  a multi-message Publish persists the whole batch in the critical section of its
                            first message (a Subscribe between two messages replays the later ones AND gets them live)
+     MutDropLogEarly       Close drops the message log before it has waited for the subscriptions (a replay in
+                           progress then reads an entry of a log that is gone: index out of range)
      MutBatchNoWait        a blocking multi-message Publish hands all messages over before it waits for acks
                            (the next message is receivable before the previous one was acked)          *)
 EXTENDS Naturals, Sequences, FiniteSets, TLC
@@ -47,7 +49,7 @@ CONSTANTS Blocking, Persistent, Buf,
           Republish,           \* Republish[s] = message the consumer of s publishes before settling, or "none"
           NackBudget,          \* how many Nacks the consumers may issue altogether
           DoClose, Cancels,    \* Cancels \subseteq Subs whose context may be cancelled
-          LegacyHoldLocks, LegacyNilLog, MutPersistOutsideLock, MutBatchPersistFirst, MutBatchNoWait
+          LegacyHoldLocks, LegacyNilLog, MutPersistOutsideLock, MutBatchPersistFirst, MutBatchNoWait, MutDropLogEarly
 
 None == "none"
 NoT == <<"none">>
@@ -213,13 +215,36 @@ SAnnounce(s) ==
 \* of the whole log,) register, unlock: no blocking operation in between (the replay goroutine inherits the locks)
 SRegister(s) ==
   LET t == SubC(s)  tp == SubTopic[s] IN
+  /\ ~Persistent
   /\ pc[t] = "S_acq" /\ WAcquired(t) /\ tmu[tp] = NoT
   /\ reg' = [reg EXCEPT ![tp] = @ \cup {s}]
-  /\ sstate' = [x \in Senders |-> IF Persistent /\ ~logNil /\ x[2] = s /\ InLog(tp, x[1]) THEN "lock" ELSE sstate[x]]
-  /\ sched'  = [x \in Senders |-> IF Persistent /\ ~logNil /\ x[2] = s /\ InLog(tp, x[1]) THEN sched[x] + 1 ELSE sched[x]]
   /\ WUnlockVars
   /\ pc' = [pc EXCEPT ![t] = "done", ![Tear(s)] = "T_wait"]
-  /\ UNCHANGED <<pm, closev, tmu, snap, sent, settle, subv, got, persisted, logNil, nacksLeft, recvd, acked, perr, panicked>>
+  /\ UNCHANGED <<pm, closev, tmu, snap, sent, sstate, settle, subv, got, persisted, logNil, nacksLeft, histv>>
+
+\* persistent mode: the replay goroutine inherits both locks.  It first looks the topic's log up under persistedMessagesLock
+\* (SSnapshot) and then reads the entries one by one WITHOUT that lock (SReplay) -- safe only because nothing can touch
+\* the log meanwhile: publishers need the locks it holds, and Close drops the log only after every subscription is gone.
+SSnapshot(s) ==
+  LET t == SubC(s)  tp == SubTopic[s] IN
+  /\ Persistent
+  /\ pc[t] = "S_acq" /\ WAcquired(t) /\ tmu[tp] = NoT
+  /\ tmu' = [tmu EXCEPT ![tp] = t]
+  /\ pc' = [pc EXCEPT ![t] = IF ~logNil /\ Len(persisted[tp]) > 0 THEN "S_replay" ELSE "S_noreplay"]
+  /\ UNCHANGED <<pm, closev, rwReaders, rwPending, rwWmu, rblocked, reg, snap, sent, sstate, settle, subv, got, persisted, logNil, nacksLeft, histv>>
+SReplay(s) ==
+  LET t == SubC(s)  tp == SubTopic[s]  rep == pc[t] = "S_replay" IN
+  /\ pc[t] \in {"S_replay", "S_noreplay"}
+  /\ IF rep /\ logNil
+       THEN \* the log was dropped between the look-up and the reads: index out of range
+            /\ panicked' = TRUE /\ UNCHANGED <<reg, sstate, sched>>
+       ELSE /\ reg' = [reg EXCEPT ![tp] = @ \cup {s}]
+            /\ sstate' = [x \in Senders |-> IF rep /\ x[2] = s /\ InLog(tp, x[1]) THEN "lock" ELSE sstate[x]]
+            /\ sched'  = [x \in Senders |-> IF rep /\ x[2] = s /\ InLog(tp, x[1]) THEN sched[x] + 1 ELSE sched[x]]
+            /\ UNCHANGED panicked
+  /\ WUnlockVars /\ tmu' = [tmu EXCEPT ![tp] = NoT]
+  /\ pc' = [pc EXCEPT ![t] = "done", ![Tear(s)] = "T_wait"]
+  /\ UNCHANGED <<pm, closev, snap, sent, settle, subv, got, persisted, logNil, nacksLeft, recvd, acked, perr>>
 
 \* ------------------------------------------------------------------ tear-down goroutine of a subscription
 Cancel(s) ==
@@ -309,8 +334,9 @@ CNack(s) ==
 \* ------------------------------------------------------------------ Close
 XStart ==
   /\ pc[Closer] = "X_start" /\ closedMu = NoT /\ closedMu' = Closer /\ closed' = TRUE /\ closing' = TRUE
+  /\ logNil' = (IF MutDropLogEarly THEN TRUE ELSE logNil)
   /\ Goto(Closer, "X_wait")
-  /\ UNCHANGED <<pm, wg, lockv, reg, snap, sent, sstate, settle, subv, got, persisted, logNil, nacksLeft, histv>>
+  /\ UNCHANGED <<pm, wg, lockv, reg, snap, sent, sstate, settle, subv, got, persisted, nacksLeft, histv>>
 
 XWait ==
   /\ pc[Closer] = "X_wait" /\ wg = 0 /\ logNil' = TRUE /\ closedMu' = NoT /\ Goto(Closer, "done")
@@ -318,7 +344,7 @@ XWait ==
 
 Next ==
   \/ \E t \in PubThreads : PCheck(t) \/ PRLock(t) \/ PRAdmitted(t) \/ PTmu(t) \/ PPersistSend(t) \/ PWait(t) \/ PUnlock(t) \/ PNext(t) \/ PRet(t)
-  \/ \E s \in Subs : SStart(s) \/ SAnnounce(s) \/ SRegister(s) \/ Cancel(s) \/ TWake(s) \/ TCloseOut(s) \/ TAnnounce(s) \/ TRemove(s)
+  \/ \E s \in Subs : SStart(s) \/ SAnnounce(s) \/ SRegister(s) \/ SSnapshot(s) \/ SReplay(s) \/ Cancel(s) \/ TWake(s) \/ TCloseOut(s) \/ TAnnounce(s) \/ TRemove(s)
                      \/ CRecv(s) \/ CAck(s) \/ CNack(s)
   \/ \E x \in Senders : SendLock(x) \/ SendLoop(x) \/ SendWait(x)
   \/ XStart \/ XWait
